@@ -17,15 +17,17 @@ CHECKS = {
             "bits with every shift amount 0..255, all 2^12 x 2 modified immediates, all (type, imm5)) and compared with "
             "an independent transcription of the ARM ARM pseudocode; every named field of every register class is "
             "read and written for every in-range value over four backgrounds and compared with the architectural "
-            "bit positions. Exhaustive inside those bounds, silent outside them (32/64-bit operands off the alphabet).",
+            "bit positions; view histories (read every field, write one field, read every field again, re-assign the register) "
+            "are run for every writable field. Exhaustive inside those bounds, silent outside them (32/64-bit operands off the alphabet).",
             "Trusted: armmc/ref/bv.py and armmc/ref/regfields.py (hand transcription of DDI 0406C).", "3 C17"),
     "C16": ("explicit-state BFS over hub read/write histories on a fresh real hub with history replay, flat "
             "first-match reference model + invariants in every state",
             "Breadth-first search over all histories (depth 2; thorough adds a boundary-restricted depth 3) of reads and "
             "writes of every size at every address of a 56-byte window, for 156 device layouts (1-3 devices, odd sizes, "
-            "adjacent / gapped / overlapping / shadowed). Every transition runs on a freshly built MemoryControllerHub "
+            "adjacent / gapped / overlapping / shadowed) plus 21 layouts with a device 2^32 above the window (alone / aliasing a low device, both priority orders). Every transition runs on a freshly built MemoryControllerHub "
             "with the history replayed and is compared with a flat reference; device length, foreign bytes and "
-            "'no host error' are checked in every reached state.",
+            "'no host error' are checked in every reached state; a read that runs past a device end must return what a freshly built hub "
+            "with the same device contents returns (no bytes left over from earlier accesses).",
             "Trusted: the 60-line flat model in checks/c16.py. Devices are RAM objects; other MemoryType subclasses "
             "are not modelled.", "3 C16"),
     "C13": ("complete product enumeration of the access-configuration matrix on the real ArmV6, each call/step "
@@ -33,7 +35,7 @@ CHECKS = {
             "All (accessor, get/set, size, address offset 0..7 at 4 bases incl. the end of a device and across 2^32, "
             "CPSR.E, SCTLR.A, SCTLR.U, architecture version 5/6/7, mode, data) tuples are executed and compared with "
             "ref.memmodel for value, fault/align-down/byte-wise behaviour and the exact byte footprint over all devices; "
-            "each store is read back; the same matrix runs through 10 ARM and 6 Thumb load/store instructions and "
+            "each store is read back; the same matrix runs through 12 ARM (incl. register-offset LDRD/STRD; also under an LPAE configuration) and 6 Thumb load/store instructions and "
             "instruction fetch is checked with E=0/1.",
             "Trusted: armmc/ref/memmodel.py. MPU off (protection is C14/C15); data values from a 3-value alphabet per "
             "size (thorough: plus every walking 1 / walking 0 of the access width, over the byte pattern and its "
@@ -46,12 +48,14 @@ CHECKS = {
             "unchanged except PC+len and ITSTATE; passing => same snapshot diff as the AL execution. The same oracle then "
             "runs over every conditional ENCODING: all 2^16 Thumb halfwords as the only instruction of an IT block, and "
             "every leaf of the lazy-word partition of the ARM (cond field rewritten) and Thumb-32 decode spaces with the "
-            "free operand bits set to 2 (thorough: 4) patterns, under conds {EQ,NE} x NZCV {0000,0100}.",
+            "free operand bits set to 2 (thorough: 4) patterns, under conds {EQ,NE} x NZCV {0000,0100}; the harvested words and their "
+            "S-bit variants also run under ARMv4, v5 and v7 with all 15 x 16 pairs.",
             "Differential: no reference model. One register file (registers pointing into RAM); operand fields per "
             "decode leaf by pattern members. Instances the implementation itself rejects as UNPREDICTABLE and instances UNDEFINED under AL "
             "are skipped.", "3 C05"),
-    "C20": ("schedule enumeration: all interleavings of 2-3 real instances x construction points; plus all "
-            "programs <= 3 x prefix points re-created on fresh and reused instances; differential trace oracle",
+    "C20": ("schedule enumeration: all interleavings of 2-3 real instances x construction points; all programs <= 3 x prefix "
+            "points re-created on fresh, reused and sibling-program instances; all ordered configuration pairs x the whole "
+            "instruction alphabet in fresh interpreter processes; differential trace oracle",
             "(a) every program of length 1..3 over a 10-item ARM and a 10-item Thumb menu, every prefix point: the "
             "snapshot is re-installed by assignment on a fresh instance and on 6 instances that ran other programs "
             "(scratch state left behind) and the continuation trace must be identical - every run is program length + 2 "
@@ -59,7 +63,12 @@ CHECKS = {
             "snapshot points; (a') the program set in forward order vs reverse order in a forked child; (b) every interleaving of the "
             "steps of two (thorough: three) instances with every ordered tuple of 4 configurations (arch version, "
             "PMSA/VMSA, extensions), every position of the later instance's construction, 16 program pairs: each "
-            "instance's trace (outcome + digest of the full snapshot after each step) must equal its solo trace.",
+            "instance's trace (outcome + digest of the full snapshot after each step) must equal its solo trace; (a'') every snapshot "
+            "also resumed on an instance that ran a sibling program (same first k instructions) for k steps; (c) every harvested "
+            "instruction word and its S-bit variant x 3 backgrounds stepped on an instance of one configuration and then on an "
+            "instance of another, for all 30 ordered pairs of 6 configurations (ARMv4..v7, extensions, R profile) in one fresh "
+            "interpreter process, against the second instance alone in another fresh process; (d) take_reset() next to an "
+            "instance of another configuration for all ordered configuration pairs.",
             "Differential: no model. Traces use emulate_cycle() only; programs come from a fixed menu.", "3 C20"),
     "C18": ("brute force over 2^16 + lazily-resolved instruction-word cube exploration of the two 2^32 spaces with "
             "concrete stepping of every leaf + program pairs; invariant oracle",
@@ -68,7 +77,8 @@ CHECKS = {
             "from_bitarray on a lazily resolved word (a leaf = a cube of words that all take the same path; the leaves "
             "tile the space, checked); every leaf, UNPREDICTABLE ones included, is concretised with 4 bit patterns and "
             "each concrete word is placed in RAM and stepped in two contexts. Plus two-instruction programs over the "
-            "harvested alphabet and the alphabet under 5 other configurations. Any escaping exception other than "
+            "harvested alphabet and the alphabet under 5 other configurations (two register files there: pointing into RAM, and all-zero "
+            "with SCTLR<19> set; MPU-on environments program MPUIR.DREGION = number of regions). Any escaping exception other than "
             "NotImplementedError from a documented hook is a violation keyed by type@site.",
             "Invariant only. Within a leaf only pattern members are stepped; observations of more than 10 (thorough: 14) "
             "unresolved bits at once are resolved from a fixed pattern alphabet (reported as words_outside_cap).",
@@ -81,7 +91,7 @@ CHECKS = {
             "with SPSR.M=User and nothing privileged changed but that exception's bookkeeping. All 2^16 Thumb words x "
             "3 IT contexts x MPU on/off x secure/non-secure x 2 register files; all decode leaves of both 32-bit "
             "spaces; two-instruction programs; and all 24 unprivileged load/store encodings in 7 privileged modes "
-            "against 4 region permissions.",
+            "against 4 region permissions and the privileged-only background region, at base alignments 0..3.",
             "Invariant only; same leaf/pattern bounds as C18.", "3 C19"),
     "C01": ("product enumeration of generated instruction instances per encoding row, each stepped on the real "
             "emulator and the whole post-state compared with an independent reference model (pseudocode transcription)",
@@ -102,7 +112,9 @@ CHECKS = {
             "(incl. the last words of the address space) x VBAR/MVBAR/HVBAR values, in 4 extension configurations, for "
             "the full product of the routing bits that kind's pseudocode reads (SCTLR.V/VE/TE/EE, HSCTLR.TE/EE, "
             "SCR.NS/IRQ/FIQ/EA/FW/AW, HCR.TGE/IMO/FMO) and every single deviation of the remaining routing bits; and "
-            "through emulate_cycle() on SVC/SMC/UDF/alignment-faulting LDR/STR in both instruction sets. The whole "
+            "through emulate_cycle() on SVC/SMC/UDF/alignment-faulting LDR/STR (base r1 and the mode's own banked SP / LR)/WFI, WFE "
+            "and SMC with their Hyp trap controls (HCR.TWI/TWE/TSC; WFE with the event register set and clear) in both "
+            "instruction sets, also on a VMSA configuration; half of the Thumb-state API entries start in ThumbEE state (J=T=1). The whole "
             "post-snapshot (target mode, SPSR, LR/ELR_hyp, masks, IT, J, T, E, vector, SCR.NS, DFSR/DFAR, everything "
             "else unchanged) is compared with ref.exc.",
             "Trusted: armmc/ref/exc.py. External/asynchronous aborts and debug exceptions are constant-false mocks in the "
@@ -122,7 +134,7 @@ CHECKS = {
             "For each of the 194 multiply / divide / saturating / parallel / extend / bit-field / reverse encoding rows: "
             "register patterns x operand pairs (triples for accumulates) from a lane alphabet that contains products that "
             "are multiples of 2^32, accumulates that wrap to 0 mod 2^64, INT_MIN/-1 and divisor 0 x every rotation / "
-            "saturation position / (lsb,width) x prior Q x prior GE x S x arch 4/6/7 x divide trapping; result, N/Z, "
+            "saturation position / (lsb,width) x prior Q x prior GE x S x arch 4/5/6/7 x divide trapping; result, N/Z, "
             "sticky Q, GE lanes and the frame condition are compared.",
             "Trusted: armmc/ref/rows_media.py. Operand values from the alphabet only. One open known finding (BFI).",
             "3 C09"),
@@ -131,9 +143,12 @@ CHECKS = {
             "(a) every history of depth 3 over {mode switch, write Rn in the current mode, write by explicit mode, SPSR "
             "write, exception entry} from 5 (thorough: 9) start modes x secure/non-secure x 3 configurations: after every "
             "event the whole snapshot, the 15 x 9 (n, mode) view table, the current-mode views and the SPSR view are "
-            "compared with ref.state.phys / ref.exc. (b) after every step of all 2^16 Thumb halfwords and of the "
+            "compared with ref.state.phys / ref.exc. (a') every 3-instruction program over a 23-item menu of bank-sensitive "
+            "instructions (LDM/STM ^, CPS, MSR, SRS, PUSH/POP, aborting loads with banked bases, an aborting literal load, SVC, a "
+            "completing write-back) from every start mode, each instruction injected at the current PC so that programs continue "
+            "at the vector after an exception, co-simulated with the reference stepper. (b) after every step of all 2^16 Thumb halfwords and of the "
             "harvested alphabet + single-bit operand variants, from 5 boundary register files x 3 modes x instruction "
-            "addresses incl. the last word below 2^32, every register, SPSR, ELR_hyp, CPSR and the PC must be an int "
+            "addresses incl. the last four instruction slots below 2^32, every register, SPSR, ELR_hyp, CPSR and the PC must be an int "
             "in 0..2^32-1.",
             "Trusted: ref.state.phys (banking table from B1.3.2). Event menus shrink with depth (stated in evidence).",
             "3 C10"),
@@ -153,7 +168,8 @@ CHECKS = {
             "exception-return flag x CPSR background x 9 current modes x secure/non-secure x NMFI x SCR.AW x SCR.FW x 4 "
             "configurations; where the model classes the write UNPREDICTABLE the invariants still checked are: no illegal "
             "mode installed, no unprivileged A/I/F/M change, T/J/IT only on exception return. (b) generated MSR/MRS/CPS/"
-            "SETEND/SUBS PC,LR/ERET/hint instances stepped and compared with ref.rows_sys. (c) for every exception kind x "
+            "SETEND/SUBS PC,LR/ERET/hint instances stepped and compared with ref.rows_sys (SMC/WFE/WFI under both polarities of their "
+            "trap controls, WFE with the event register set and clear). (c) for every exception kind x "
             "interrupted state (mode, T, ITSTATE, masks, security state, PC) the exception is taken and that kind's standard "
             "return instruction executed at the vector from ARM and Thumb handlers: CPSR, every register and the resume PC "
             "must be back. (e) 12 coprocessor numbers x CPACR field x NSACR x HCPTR x mode x security state x instruction set "
@@ -164,13 +180,14 @@ CHECKS = {
             "by step: reference stepper vs emulate_cycle, whole snapshot compared after every step",
             "ITAdvance on all 256 ITSTATE values; then for each of the 210 legal (firstcond, mask) pairs x NZCV x every "
             "sequence of block-length+1 menu instructions (16-bit flag-setting ALU op, 32-bit ALU op, CMP changing the flags "
-            "mid-block, SVC, UDF, alignment-faulting load, branch as last) the program is run on the emulator and on the "
+            "mid-block, 32-bit MSR APSR, SVC, UDF, SMC, alignment-faulting load, branch / BX to ARM state as last) the program is run on the emulator and on the "
             "reference stepper in lock step, with Thumb exception handlers at the vectors that return into the block; "
             "after every step the full snapshot is compared: which slots executed, no flag update by 16-bit ALU ops in the "
             "block, ITSTATE per instruction and empty after the last, IT saved (advanced for SVC) and cleared on entry and "
             "restored on return.",
             "Trusted: ref.model (table-driven stepper) and the row semantics it uses. Quick uses 8 NZCV values on which "
-            "every condition takes both outcomes and the exception items only on blocks of length <= 2.", "3 C08"),
+            "every condition takes both outcomes and the exception items only on blocks of length <= 2; programs whose flag value has "
+            "V = 1 run in Non-secure state.", "3 C08"),
     "C06": ("read-directed exhaustive cube exploration (lazily resolved instruction word) of the JOINT function real "
             "decoder+from_bitarray x reference encoding table; verdicts compared at every leaf; leaves tile the space",
             "The real decode_instruction + from_bitarray and the reference table (622 rows transcribed from the ARM ARM "
@@ -179,7 +196,7 @@ CHECKS = {
             "UNDEFINED / NOTIMPL / UNPREDICTABLE verdicts at the leaf decides every word of the cube, and the cube sizes "
             "must add up to the explored space (checked). Operands are compared exactly, by bit-provenance vector, or "
             "by concrete enumeration of every assignment of the bits either side depends on. Thorough explores all 2^32 "
-            "words under arch versions 7/6/5; quick explores conditions AL, NV and EQ (3 x 2^28 words) at v7, both carry values "
+            "words under arch versions 7/6/5; quick explores conditions AL, NV and EQ (3 x 2^28 words) at v7 and cond = AL at v6 and v5, both carry values "
             "on the modified-immediate space.",
             "Trusted: armmc/ref/rows_*.py and armmc/lazyword.py (self-checked against a 2^16 brute force at setup). "
             "UNPREDICTABLE encodings: one-sided comparison. Observations of more than 10 (thorough 16) unresolved bits "
@@ -189,7 +206,7 @@ CHECKS = {
             "Every 16-bit halfword is decoded in 6 contexts (outside / last / inside an IT block x carry) and class + every "
             "operand compared with the reference table; the 32-bit space is explored as in C06 in 4 (thorough 6) contexts; "
             "the fetch rule (32-bit iff top five bits 11101/11110/11111, word = hw1:hw2, independent of mode / E / IT) is "
-            "checked for every first halfword through fetch_instruction().",
+            "checked for every first halfword x second halfwords {0, 0xFFFF, 0x12A5} x CPSR.E through fetch_instruction().",
             "As C06. One open known finding (CBZ offset scaling).", "3 C07"),
     "C04": ("product enumeration of branch instances (complete offset fields where small, complete 2^20/2^24 sweeps in "
             "thorough) and of one instance of every encoding row, stepped on the real emulator and compared with the model",
@@ -199,7 +216,8 @@ CHECKS = {
             "offsets cross 2^32), the last slots below 2^32} x arch versions 4..7 x mode: target, LR, T bit, alignment and the frame condition. (b) one "
             "predictable non-PC-writing instance of every row of the dp/media/ldst/block/branch tables (507 rows) at every "
             "address: PC advances by exactly 2/4 modulo 2^32; 78 PC-as-source instances observe own address + 8 / + 4. "
-            "(c) ALU and load writes to the PC under versions 4..7.",
+            "(c) ALU and load writes to the PC (incl. ADD pc,sp,pc and the SP-plus forms) under versions 4..7; all 3-instruction "
+            "programs over a menu of taken / not-taken branches, condition-failed and IT instructions co-simulated with the reference stepper.",
             "Trusted: armmc/ref/rows_branch.py and the other row modules. One open known finding (CBZ offset scaling).",
             "3 C04"),
     "C14": ("product enumeration of MPU region sets x boundary addresses x access kinds on translate_address() against an "
@@ -211,7 +229,9 @@ CHECKS = {
             "(b) 107 load/store instruction forms (single, dual, unprivileged, LDM/STM in all modes, PUSH/POP; ARM and Thumb) "
             "on 8 window layouts with the window start at every word k of the transfer and at unaligned addresses: on a fault "
             "the whole post-state equals pre-state + data-abort record + Data Abort entry (no write-back, no data "
-            "transferred to denied locations, LR_abt, SPSR_abt, vector); a permitted run equals the MPU-off run.",
+            "transferred to denied locations, LR_abt, SPSR_abt, vector) - each faulting case on a processor that has just retired a "
+            "write-back load and whose state is re-created by assignment; a permitted run equals the MPU-off run. Consecutive "
+            "layouts on the reused processor move regions without touching their size registers.",
             "Trusted: armmc/ref/pmsa.py, ref/exc.py. Registers loaded before a fault are UNKNOWN (don't-care). One open known "
             "finding (PUSH.W unaligned SP).", "3 C14"),
     "C15": ("product enumeration of generated translation tables x control registers x addresses on translate_address() "
@@ -221,9 +241,12 @@ CHECKS = {
             "TEX/C/B x SCTLR.{M,AFE,HA,EE,TRE} x FCSE PID x PD0/PD1 x VA at start / end / interior / unmapped x read/write x "
             "privileged/unprivileged, and for the long-descriptor format (EAE=1) T0SZ/T1SZ, start level 1/2, table / block / "
             "page, APTable/NSTable, AF, AP, AttrIndx 0..7 over MAIR0/MAIR1, SH; physical address, NS, memory type, fault kind + level + domain in DFSR, DFAR and "
-            "the frame condition are compared, a subset through LDR/STR/LDRT/STRT with the complete Data Abort entry. Paths "
+            "the frame condition are compared, a subset through LDR/STR/LDRT/STRT (word-aligned, one byte off alignment, and straddling "
+            "the end of the mapped unit with one model translation per byte) with the complete Data Abort entry; sub-products also on a "
+            "configuration without Security Extensions, an LPAE one and a Virtualization-Extensions one with stage 2 disabled "
+            "(incl. unaligned accesses to Device / Strongly-ordered memory). Paths "
             "ending in a documented mock hook must end in NotImplementedError at exactly that hook.",
-            "Trusted: armmc/ref/vmsa.py. Not covered: stage 2 / Hyp, instruction-side XN, long-descriptor DFSR encoding "
+            "Trusted: armmc/ref/vmsa.py. Not covered: stage 2 enabled / Hyp regime, instruction-side XN, long-descriptor DFSR encoding "
             "(behind a mock).", "3 C15"),
 }
 NOT_YET = "check not built yet in this round (see DESIGN.md section 3 for the planned bounded-exhaustive formulation)"
